@@ -126,6 +126,12 @@ func (m *Model) resolve(v ssa.Value, fr *frame) (ssa.Value, *frame) {
 // accessorResult: result idx of a call to a package function that consists of a single basic
 // block ending in a return (no branches, hence no choice about what is returned).
 func (m *Model) accessorResult(call *ssa.Call, idx int, fr *frame) (ssa.Value, *frame) {
+	return m.accessorResultX(call, idx, fr, false)
+}
+
+// accessorResultX: with allowCalls, calls whose results merely become elements of the returned
+// literal are tolerated (an argument-packing helper such as scopeAndName(name)).
+func (m *Model) accessorResultX(call *ssa.Call, idx int, fr *frame, allowCalls bool) (ssa.Value, *frame) {
 	callee := call.Common().StaticCallee()
 	if callee == nil || !m.inPkg(callee) || len(callee.Blocks) != 1 || fr == nil || fr.depth > 6 {
 		return nil, nil
@@ -139,15 +145,26 @@ func (m *Model) accessorResult(call *ssa.Call, idx int, fr *frame) (ssa.Value, *
 		return nil, nil
 	}
 	for _, ins := range blk.Instrs {
-		switch ins.(type) {
-		case *ssa.Store, ssa.CallInstruction:
+		switch x := ins.(type) {
+		case *ssa.Store:
 			// anything with an effect (other than building the returned literal) disqualifies it
-			if st, isSt := ins.(*ssa.Store); isSt {
-				if fa, isFA := st.Addr.(*ssa.FieldAddr); isFA {
-					if al, isAl := fa.X.(*ssa.Alloc); isAl && al.Comment == "complit" {
-						continue
-					}
-				}
+			var base ssa.Value
+			switch a := x.Addr.(type) {
+			case *ssa.FieldAddr:
+				base = a.X
+			case *ssa.IndexAddr:
+				base = a.X
+			}
+			if al, isAl := base.(*ssa.Alloc); isAl && (al.Comment == "complit" || al.Comment == "slicelit" || al.Comment == "varargs") {
+				continue
+			}
+			return nil, nil
+		case ssa.CallInstruction:
+			if f := x.Common().StaticCallee(); f != nil && f.Pkg != nil && f.Pkg.Pkg.Path() == "database/sql" && f.Name() == "Named" {
+				continue // packs a name and a value; no effect
+			}
+			if _, isCall := x.(*ssa.Call); isCall && allowCalls {
+				continue
 			}
 			return nil, nil
 		}
